@@ -21,6 +21,8 @@
 EXTENDS Naturals, Sequences, FiniteSets, TLC
 
 CONSTANTS Threads, ChanCap, MaxReq,    \* MaxReq: requests each thread issues
+          SendRule,                    \* "block": a request is sent on the channel while the state lock is held, waiting for room (pinned
+                                       \* code); "refuse": a full channel refuses the request at once (repaired)
           PopRule                      \* "unchecked": the plotter pops after an Empty() test made earlier (pinned code);
                                        \* "checked": the pop itself tests for emptiness under the queue's mutex (repaired)
 
@@ -46,8 +48,8 @@ CanWrite(t) == writer = "none" /\ readers = {}
 PlotLock(t) == /\ tpc[t] = "idle" /\ left[t] > 0 /\ CanRead(t)
                /\ readers' = readers \cup {t} /\ tpc' = [tpc EXCEPT ![t] = "plot_locked"]
                /\ UNCHANGED <<writer, wwait, chan, queue, ppc, left>>
-PlotSend(t) == /\ tpc[t] = "plot_locked" /\ chan < ChanCap              \* blocks here while the channel is full
-               /\ chan' = chan + 1 /\ readers' = readers \ {t}
+PlotSend(t) == /\ tpc[t] = "plot_locked" /\ (chan < ChanCap \/ SendRule = "refuse")    \* "block": waits here while the channel is full
+               /\ chan' = (IF chan < ChanCap THEN chan + 1 ELSE chan) /\ readers' = readers \ {t}
                /\ tpc' = [tpc EXCEPT ![t] = "idle"] /\ left' = [left EXCEPT ![t] = @ - 1]
                /\ UNCHANGED <<writer, wwait, queue, ppc>>
 MineWant(t) == /\ tpc[t] = "idle" /\ left[t] > 0 /\ t \notin wwait
@@ -55,8 +57,8 @@ MineWant(t) == /\ tpc[t] = "idle" /\ left[t] > 0 /\ t \notin wwait
 MineLock(t) == /\ t \in wwait /\ tpc[t] = "idle" /\ CanWrite(t)
                /\ writer' = t /\ wwait' = wwait \ {t} /\ tpc' = [tpc EXCEPT ![t] = "mine_locked"]
                /\ UNCHANGED <<readers, chan, queue, ppc, left>>
-MineSend(t) == /\ tpc[t] = "mine_locked" /\ chan < ChanCap
-               /\ chan' = chan + 1 /\ writer' = "none"
+MineSend(t) == /\ tpc[t] = "mine_locked" /\ (chan < ChanCap \/ SendRule = "refuse")
+               /\ chan' = (IF chan < ChanCap THEN chan + 1 ELSE chan) /\ writer' = "none"
                /\ tpc' = [tpc EXCEPT ![t] = "idle"] /\ left' = [left EXCEPT ![t] = @ - 1]
                /\ UNCHANGED <<readers, wwait, queue, ppc>>
 Query(t)    == /\ tpc[t] = "idle" /\ left[t] > 0 /\ CanRead(t)
@@ -97,7 +99,7 @@ Quiet   == AllDone /\ ppc = "idle" /\ chan = 0 /\ queue = 0
 \* before it will ever receive again
 KnownWedge == \E t \in Threads : tpc[t] \in {"plot_locked", "mine_locked"} /\ chan = ChanCap
 \* no thread is ever stuck for good - except in the known wedge
-NoWedge == (~ENABLED Next) => (Quiet \/ KnownWedge \/ ppc = "panic")
+NoWedge == (~ENABLED Next) => (Quiet \/ (SendRule = "block" /\ KnownWedge) \/ ppc = "panic")
 \* the plotter never pops from a queue a caller has just emptied (fixed by the repair recorded as
 \* F-C13-plotter-pops-emptied-queue; with PopRule = "unchecked" TLC produces the schedule)
 NoPanic == ppc # "panic"
